@@ -175,6 +175,9 @@ theorem inv_step {s : S} (h : Inv s) (a : Act) : Inv (step Cfg.fixed s a) := by
         · simp
       · exact ⟨h1, h2, h3, h4, h5, h6, h7, h8, h9, h10, h11⟩
     · exact ⟨h1, h2, h3, h4, h5, h6, h7, h8, h9, h10, h11⟩
+  | wGiveUp =>
+    have : step Cfg.fixed s .wGiveUp = s := by simp only [step, Cfg.fixed, if_true]; split <;> rfl
+    rw [this]; exact h
   | pumpTake =>
     obtain ⟨h1, h2, h3, h4, h5, h6, h7, h8, h9, h10, h11⟩ := h
     simp only [step]
@@ -543,6 +546,9 @@ theorem inv2_step {s : S} (h : Inv2 s) (a : Act) : Inv2 (step Cfg.fixed s a) := 
   | wCheck => obtain ⟨h1, h2, h3⟩ := h; simp only [step]; split <;> (try split) <;> exact ⟨h1, h2, h3⟩
   | wSend => obtain ⟨h1, h2, h3⟩ := h; simp only [step]; split <;> (try split) <;> (try split) <;> exact ⟨h1, h2, h3⟩
   | wClosed => obtain ⟨h1, h2, h3⟩ := h; simp only [step]; split <;> (try split) <;> exact ⟨h1, h2, h3⟩
+  | wGiveUp =>
+    have : step Cfg.fixed s .wGiveUp = s := by simp only [step, Cfg.fixed, if_true]; split <;> rfl
+    rw [this]; exact h
   | pumpTake => obtain ⟨h1, h2, h3⟩ := h; simp only [step]; split <;> exact ⟨h1, h2, h3⟩
   | pumpCheck => obtain ⟨h1, h2, h3⟩ := h; simp only [step]; split <;> (try split) <;> exact ⟨h1, h2, h3⟩
   | pumpExit => obtain ⟨h1, h2, h3⟩ := h; simp only [step]; split <;> (try split) <;> exact ⟨h1, h2, h3⟩
@@ -566,6 +572,43 @@ theorem C13_no_late_delivery (acts : List Act) : (run Generated.wsCfg acts).late
 /-- a read pump that looks at the result of a read without testing the closed flag again delivers such a message -/
 theorem C13_no_recheck_delivers_late :
     (run { Cfg.fixed with readerRechecks := false } [.peerSend, .rStart, .localClose, .rReturnBuf, .rCheck, .rDeliver]).lateDelivered = 1 := by
+  decide
+
+/-! ### A Write on an open connection waits, it is never refused (used by C06: nothing is dropped while the
+    connection stays open). `refusedOpen` counts Writes that returned an error while the closed flag was not set. -/
+
+theorem shutdown_refused (s : S) (e b : Bool) : (shutdown Cfg.fixed s e b).1.refusedOpen = s.refusedOpen := by
+  rw [shutdown_fixed]; split <;> rfl
+
+theorem errorPath_refused (s : S) : (errorPath Cfg.fixed s).refusedOpen = s.refusedOpen := by
+  rw [errorPath_fixed]; split <;> rfl
+
+theorem readErrorPath_fixed (s : S) : readErrorPath Cfg.fixed s = errorPath Cfg.fixed s := rfl
+
+theorem refused_step (s : S) (a : Act) : (step Cfg.fixed s a).refusedOpen = s.refusedOpen := by
+  cases a <;> simp only [step, fixed_rr, Bool.true_and]
+  case wGiveUp => simp only [Cfg.fixed, if_true]; split <;> rfl
+  case localCloseBegin => simp only [Cfg.fixed, if_true]; exact shutdown_refused s false false
+  case localClose => exact shutdown_refused s false false
+  all_goals (repeat' split) <;> (try rfl) <;> (try exact errorPath_refused s) <;>
+    (try (rw [readErrorPath_fixed]; exact errorPath_refused s))
+
+theorem refused_run (acts : List Act) : (run Cfg.fixed acts).refusedOpen = 0 := by
+  unfold run
+  suffices ∀ s, s.refusedOpen = 0 → (acts.foldl (step Cfg.fixed) s).refusedOpen = 0 from this _ rfl
+  induction acts with
+  | nil => intro s h; exact h
+  | cons a rest ih => intro s h; exact ih _ (by rw [refused_step s a]; exact h)
+
+/-- **C12 / C06 (a Write waits)**: on every schedule, no Write returns an error while the connection is open; with
+    `C12_write_vs_close` (accepted = what the peer got ++ what is queued, as long as the pump lives) nothing handed to
+    an open connection is dropped. -/
+theorem C12_write_waits (acts : List Act) : (run Generated.wsCfg acts).refusedOpen = 0 := by
+  rw [wsCfg_is_fixed]; exact refused_run acts
+
+/-- a Write with a timeout (or default) case in its select refuses a message on an open connection -/
+theorem C12_timeout_case_drops :
+    (run { Cfg.fixed with writeWaits := false } [.enter, .wCheck, .wSend, .enter, .wCheck, .wGiveUp]).refusedOpen = 1 := by
   decide
 
 end ShipVerif.Ws
